@@ -225,6 +225,10 @@ def _one_op_instances(tier):
             if opcode == 0xfa and e['fmt'] == 64:
                 continue
             combos = OPS.shapes_for(opcode, lebmax, blobmax, NESTED_Q)
+            if opcode in (0x10, 0x11, 0x91, 0x70, 0x92) and e is envs[0]:
+                # operands at the 64-bit boundary: LEB128 encodings of 9, 10 and (padded) 11 bytes
+                kinds = OPS.OPERANDS[opcode][1]
+                combos = list(combos) + [[{'leb': n} if k in ('uleb', 'sleb') and i == len(kinds) - 1 else {'leb': 1} for i, k in enumerate(kinds)] for n in (9, 10, 11)]
             for shapes in combos:
                 for prefix in ([], [[0x75, [{'leb': 2}]]]):
                     if prefix and (0x30 <= opcode <= 0x8f) and opcode not in (0x30, 0x50, 0x70, 0x8f):
